@@ -134,7 +134,7 @@ class Agg:
     def __init__(self, prop, prefixes):
         self.prop = prop
         self.prefixes = prefixes  # label prefixes that belong to this property
-        self.tot = dict(paths=0, branches=0, queries=0, sat=0, unsat=0, unknown=0, obligations=0, discharged_solver=0, discharged_concrete=0, divergences=0, free_alts=0)
+        self.tot = dict(paths=0, branches=0, queries=0, sat=0, unsat=0, unknown=0, obligations=0, discharged_solver=0, discharged_concrete=0, divergences=0, free_alts=0, selfcheck_terms=0)
         self.solver_secs = 0.0
         self.subcases = 0
         self.decided = 0
@@ -181,7 +181,7 @@ class Agg:
                     self.violations.append((case, v))
             if r["complete"] and nontrivial_rule(r):
                 self.nontrivial.add(json.dumps(case, sort_keys=True))
-            if r["witnesses"] and r.get("observed", 0) > 0 and case.get("kind") in ("dd", "solve", "fringe", "cache", "dominance") and len(self.diff_candidates) < 400:
+            if r["witnesses"] and r.get("observed", 0) > 0 and case.get("kind") in ("dd", "solve", "fringe", "cache", "dominance", "domorder", "knap") and len(self.diff_candidates) < 400:
                 self.diff_candidates.append((case, r["witnesses"][-1]))
             if len(self.samples) < 4 and r["paths"] > 1:
                 self.samples.append(dict(case=case, structure=rec.get("shape", ""), symbolic_inputs=r["inputs_decl"][:40], paths=r["paths"], queries=r["queries"], obligations=r["obligations"], complete=r["complete"], one_path_model=(r["witnesses"] or [{}])[0], obligation_labels=r["labels"]))
